@@ -1,22 +1,38 @@
 (* C01 — opposite references stay symmetric.  Statements only; proofs in
-   Proofs/C01Proofs.v.  Model: Model/Kernel.v (EValue._set, ECollection.remove
-   and their opposite handling, statement by statement).
-   Proved here, for every state and object:
-   * the releasing direction, for every multiplicity pairing (1-1, 1-n, n-1,
-     n-n, self-opposites included): unsetting a single-valued end and removing
-     from a multi-valued end keep `y in x.r  <->  x in y.r'`;
-   * the LINKING direction for all four pairings (two distinct features):
-     x.r = y on a 1-1 and on a 1-n pair (whatever x and y were linked to
-     before: the previous partner of x is released, y is detached from its
-     previous partner), x.r.append(y) / insert on an n-1 pair (y leaves the
-     collection that held it) and on an n-n pair — the statement's headline
-     "re-pointing one end also releases the previous partner".
-   PARTIAL: linking through a self-opposite feature, pop/clear/extend/item
-   assignment/delete as compositions, and the interplay with containment are
-   not yet theorems; they are carried by the correspondence and the
-   symmetric-pair oracle (harness/props/c01.py). *)
-From Coq Require Import List Bool Arith.
-From PyecoreV Require Import Lib.PyBase Lib.PyList Model.Kernel Proofs.KernelFacts Proofs.C01Proofs.
+   Proofs/C01Proofs.v and Proofs/C01Full.v.  Model: Model/Kernel.v (EValue._set,
+   ECollection and their opposite handling, EObject.delete, Resource.append,
+   statement by statement).
+   PROVED, for every metamodel WITHOUT CONTAINMENT FEATURES (`no_containment m`)
+   whose eOpposites are well formed (`wf_opp m`: eOpposite is an involution
+   between references, a many-valued bidirectional end is unique):
+   * C01_step_no_containment: the invariant `Inv m s` = opposite symmetry
+     (`y in x.r <-> x in y.r'` for every declared pair, self-opposites included)
+     together with the slot shape it relies on (a single-valued slot holds exactly
+     one value, a bidirectional collection holds an object at most once) is
+     preserved by EVERY operation of `step`: x.f = v (accepted or rejected, v an
+     object, None or anything else that passes the check), del x.f, x.f = [...],
+     append/add, insert, remove, pop, clear, extend/update/+=, c[i] = v, del c[i],
+     x.delete() (recursive or not), Resource.append/remove/extend, reads; for
+     every multiplicity pairing (1-1, 1-n, n-1, n-n) and for features that are
+     their own opposite (x.f = x and x.f.append(x) included).  The only premise
+     on the call (`op_fits`) is that collection operations address many-valued
+     features.
+   * C01_every_history_no_containment: hence the invariant holds after every
+     history of such calls from the initial state (reference defaults None).
+   * C01_no_container_without_containment: in such metamodels no object ever
+     gets a container (so Resource.append never has to detach anything).
+   * the case theorems (unset, remove, re-pointing 1-1 / 1-n, append n-1 / n-n,
+     and linking through a self-opposite feature, single- and many-valued) are
+     kept as separate `_partial` statements.
+   REMAINS (not a theorem): metamodels WITH containment features, i.e. the
+   interplay of opposite updates with _update_container (an object moved to a
+   new container is removed from / unset in its previous container's slot, and
+   Resource.append detaches a contained object); that part is carried by the
+   model/implementation correspondence and the symmetric-pair oracle
+   (harness/props/c01.py).  No case of the no-containment property was found
+   false of the model. *)
+From Coq Require Import ZArith List Bool Arith.
+From PyecoreV Require Import Lib.PyBase Lib.PyList Model.Kernel Proofs.KernelFacts Proofs.C01Proofs Proofs.C01Full.
 Import ListNotations.
 
 Theorem C01_unset_keeps_symmetry_partial :
@@ -81,6 +97,46 @@ Theorem C01_append_many_to_many_keeps_symmetry_partial :
 Proof. exact add_nn_preserves_sym. Qed.
 Print Assumptions C01_append_many_to_many_keeps_symmetry_partial.
 
+Theorem C01_repointing_self_opposite_keeps_symmetry_partial :
+  forall m, no_containment m -> wf_opp m ->
+  forall s x f y,
+    sym m s -> shape m s ->
+    f_opp (fd m f) = Some f -> f_many (fd m f) = false ->
+    check_single m f (VObj y) = true ->
+    sym m (snd (set_full m s (x, f) (VObj y))).
+Proof. exact set_self_preserves_sym. Qed.
+Print Assumptions C01_repointing_self_opposite_keeps_symmetry_partial.
+
+Theorem C01_append_self_opposite_keeps_symmetry_partial :
+  forall m, no_containment m -> wf_opp m ->
+  forall s x f pos y,
+    sym m s ->
+    f_opp (fd m f) = Some f -> f_many (fd m f) = true ->
+    check_elem m f (VObj y) = true ->
+    sym m (snd (coll_add_full m s (x, f) pos (VObj y))).
+Proof. exact add_self_preserves_sym. Qed.
+Print Assumptions C01_append_self_opposite_keeps_symmetry_partial.
+
+(* every operation of `step` keeps symmetry + shape, in metamodels without containment *)
+Theorem C01_step_no_containment :
+  forall m, no_containment m -> wf_opp m ->
+  forall s o, Inv m s -> op_fits m o -> Inv m (next m s o).
+Proof. exact sym_step. Qed.
+Print Assumptions C01_step_no_containment.
+
+Theorem C01_every_history_no_containment :
+  forall m, no_containment m -> wf_opp m ->
+  forall ops, ref_defaults_none m -> Forall (op_fits m) ops ->
+    Inv m (fold_left (next m) ops (init_state m)).
+Proof. exact sym_history. Qed.
+Print Assumptions C01_every_history_no_containment.
+
+Theorem C01_no_container_without_containment :
+  forall m, no_containment m ->
+  forall ops, uncontained (fold_left (next m) ops (init_state m)).
+Proof. exact uncontained_history. Qed.
+Print Assumptions C01_no_container_without_containment.
+
 (* non-vacuity: a 1-n pair, a reachable symmetric state, and the theorem's conclusion computed *)
 Definition ex_mm : mm :=
   {| feats := [ {| f_owner := 0; f_isref := true; f_many := false; f_unique := true; f_cont := false;
@@ -111,3 +167,25 @@ Example C01_repointing_witness :
   let s3 := next ex_mm11 s2 (OSet 0 0 (VObj 3)) in
   (vals s3 (0, 0), vals s3 (1, 0), vals s3 (2, 1), vals s3 (3, 1)) = ([VObj 3], [VNone], [VNone], [VObj 0]).
 Proof. vm_compute. reflexivity. Qed.
+
+(* non-vacuity of the self-opposite theorems: a single-valued self-opposite feature 0 ("spouse") and a
+   many-valued one 1 ("friends"), metamodel ex_mm_self of Proofs/C01Full.v; re-pointing steals, self-links x.f = x and x.f.append(x) *)
+Example C01_self_opposite_witness :
+  let s2 := fold_left (next ex_mm_self) [OSet 0 0 (VObj 1); OSet 2 0 (VObj 3)] (init_state ex_mm_self) in
+  let s3 := next ex_mm_self s2 (OSet 0 0 (VObj 3)) in
+  let s4 := next ex_mm_self s3 (OSet 0 0 (VObj 0)) in
+  (vals s3 (0, 0), vals s3 (1, 0), vals s3 (2, 0), vals s3 (3, 0)) = ([VObj 3], [VNone], [VNone], [VObj 0])
+  /\ (vals s4 (0, 0), vals s4 (3, 0)) = ([VObj 0], [VNone]).
+Proof. vm_compute. split; reflexivity. Qed.
+
+Example C01_self_opposite_collection_witness :
+  let s := fold_left (next ex_mm_self)
+             [OAppend 0 1 (VObj 1); OAppend 0 1 (VObj 0); OInsert 2 1 0%Z (VObj 0); OPop 0 1 0%Z; OClear 2 1]
+             (init_state ex_mm_self) in
+  (vals s (0, 1), vals s (1, 1), vals s (2, 1)) = ([VObj 0], [], []).
+Proof. vm_compute. reflexivity. Qed.
+
+Theorem C01_premises_satisfiable :
+  no_containment ex_mm_self /\ wf_opp ex_mm_self /\ ref_defaults_none ex_mm_self.
+Proof. exact ex_mm_self_ok. Qed.
+Print Assumptions C01_premises_satisfiable.
